@@ -1,6 +1,6 @@
 (* Properties/C13.v — Torrent files: total parsing, consistent geometry, identity preserved. *)
 From Coq Require Import String.
-From Storrent Require Import Base.Bytes Base.Bencode Model.Wire Model.Torfile Proof.Torfile Proof.TorSlice Model.TorWrite Model.DepthLimiter Proof.TorWriteRT Proof.TopDepth.
+From Storrent Require Import Base.Bytes Base.Bencode Model.Wire Model.Torfile Proof.Torfile Proof.TorSlice Model.TorWrite Model.DepthLimiter Model.Magnet Proof.TorWriteRT Proof.TopDepth Proof.Magnet.
 Open Scope N_scope.
 
 (* reading any byte string as a .torrent never crashes: no division by zero, no
@@ -87,3 +87,19 @@ Theorem c13_depth_rule_is_limiter : forall bs es, top_entries bs = Some es ->
   lim_passes bs = negb (max_bencode_depth <? entries_depth es).
 Proof. exact torfile_depth_is_limiter. Qed.
 Print Assumptions c13_depth_rule_is_limiter.
+
+(* Magnet links (tor.ReadMagnet and hash.Parse, Model/Magnet.v, compared with the implementation on
+   every run): whatever string is read, a torrent that comes back is identified by a 20-byte hash. *)
+Theorem c13_magnet_hash_length : forall m h, read_magnet m = MgOk h -> len h = 20.
+Proof. exact magnet_hash_len. Qed.
+Print Assumptions c13_magnet_hash_length.
+
+(* Identity is preserved through a link: the magnet link for any 20-byte hash - magnet:?xt=urn:btih:
+   and the hash in hex - followed by nothing or by any further parameters (&dn=, &tr=, &ws=, other
+   xt values, any bytes at all after the '&'), reads back as exactly that hash. *)
+Theorem c13_magnet_roundtrip : forall h params,
+  List.length h = 20%nat -> Forall (fun b => b < 256) h ->
+  params = [] \/ (exists r, params = 38 :: r) ->
+  read_magnet (magnet_of h params) = MgOk h.
+Proof. exact magnet_roundtrip. Qed.
+Print Assumptions c13_magnet_roundtrip.
